@@ -283,7 +283,10 @@ class Interp:
             v = thunk()
         except sdk_exc.SuspendExecution as e:
             run.obs.append({"path": path, "kind": kind, "inv": run.inv, "clk": run.clock(), "out": "suspend", "pre": pre,
-                            "task": t.id if t else None, "timed": getattr(e, "scheduled_timestamp", None)})
+                            "task": t.id if t else None, "timed": getattr(e, "scheduled_timestamp", None), "exc": type(e).__name__, "msg": str(e)[:120],
+                            # branch bodies of this very call that are inside user code at the instant it suspends
+                            "active_under": sorted({v["path"] for v in run.active_user.values() if v["kind"] == "branch" and v["path"].startswith(path + "/")
+                                                    and v["path"].count("/") == path.count("/") + 1}) if kind in ("map", "parallel") else []})
             raise
         except (D.SchedAbort, sdk_exc.BackgroundThreadError, sdk_exc.OrphanedChildException) as e:
             run.obs.append({"path": path, "kind": kind, "inv": run.inv, "clk": run.clock(), "out": "abort", "pre": pre, "exc": type(e).__name__})
